@@ -1,5 +1,7 @@
 //@ variant: tcp TU=libxcm/tp/tcp/xcm_tp_tcp.c DEFS=-DXF_TCP P=tcp
 //@ variant: tls TU=libxcm/tp/tls/xcm_tp_tls.c DEFS=-DXF_TLS P=tls
+//@ variant: tcp-nr TU=libxcm/tp/tcp/xcm_tp_tcp.c DEFS=-DXF_TCP_-DXV_NR P=tcp R=buffer_msg
+//@ variant: tls-nr TU=libxcm/tp/tls/xcm_tp_tls.c DEFS=-DXF_TLS_-DXV_NR P=tls R=buffer_msg
 //@ tu: $TU
 //@ defs: $DEFS
 //@ loops: framing.loops
